@@ -517,6 +517,12 @@ func (ds *DataStore) Delete(ctx context.Context, k string) error {
 	if ferr != nil {
 		return ds.fail("Delete", k, opWrite, alt, idx, ferr)
 	}
+	// Couchbase Server answers "not found" when the document is absent or already a tombstone;
+	// rosmar tombstones the existing tombstone row again and answers success.  The seam restores the
+	// server's answer (nothing runs between this check and the delete).
+	if v, _, gerr := ds.DataStore.GetRaw(ctx, k); gerr != nil || v == nil {
+		return ds.post("Delete", k, opWrite, alt, idx, sgbucket.MissingError{Key: k})
+	}
 	err := ds.DataStore.Delete(ctx, k)
 	return ds.post("Delete", k, opWrite, alt, idx, err)
 }
@@ -525,6 +531,9 @@ func (ds *DataStore) Remove(ctx context.Context, k string, cas uint64) (uint64, 
 	alt, idx, ferr := ds.pre("Remove", k, opCasWrite)
 	if ferr != nil {
 		return 0, ds.fail("Remove", k, opCasWrite, alt, idx, ferr)
+	}
+	if v, _, gerr := ds.DataStore.GetRaw(ctx, k); gerr != nil || v == nil {
+		return 0, ds.post("Remove", k, opCasWrite, alt, idx, sgbucket.MissingError{Key: k})
 	}
 	casOut, err := ds.DataStore.Remove(ctx, k, cas)
 	err = ds.post("Remove", k, opCasWrite, alt, idx, err)
